@@ -9,6 +9,7 @@ import (
 	"bytes"
 	"encoding/json"
 	"fmt"
+	"net"
 	"runtime"
 	"runtime/debug"
 	"sort"
@@ -43,17 +44,27 @@ const (
 )
 
 var c14SrcNames = func() []string {
-	n := []string{"A", "B"}
+	n := []string{c14Addr("A").String(), c14Addr("B").String()}
 	for i := 0; i < 520; i++ {
-		n = append(n, fmt.Sprintf("s%03d", i))
+		n = append(n, c14Addr(fmt.Sprintf("s%03d", i)).String())
 	}
 	return n
 }()
 
-// c14SrcName: 0 -> "A", 1 -> "B", 2+i -> "s<i>" (sources of the directed real-caps run).
+// c14SrcName: the ip:port of source 0 ("A"), 1 ("B"), 2+i ("s<i>", the sources of the directed real-caps run).
 func c14SrcName(s uint16) string { return c14SrcNames[s] }
 
 func (o c14Op) Src() string { return c14SrcName(o.S) }
+
+func c14SrcAddr(s uint16) *net.UDPAddr {
+	switch s {
+	case 0:
+		return c14Addr("A")
+	case 1:
+		return c14Addr("B")
+	}
+	return c14Addr(fmt.Sprintf("s%03d", int(s)-2))
+}
 
 func (o c14Op) String() string {
 	switch o.Kind {
@@ -156,12 +167,12 @@ var c14Buf [4096]byte
 
 // c14World is one real object + reference inside an execution.
 type c14World struct {
-	e    *vsched.Exec
-	cfg  *c14TableCfg
-	in   *vnet.PacketConn
-	g    *geckoPacketConn
-	ref  *c14Ref
-	buf  []byte
+	e   *vsched.Exec
+	cfg *c14TableCfg
+	in  *vnet.PacketConn
+	g   *geckoPacketConn
+	ref *c14Ref
+	buf []byte
 }
 
 func c14NewWorld(e *vsched.Exec, cfg *c14TableCfg) *c14World {
@@ -221,13 +232,13 @@ func (w *c14World) step(op c14Op) string {
 				}
 			}
 		}
-		w.in.Inject(c14Frame(op.ID, op.Idx, op.Total, int(op.Idx)*3, payload), c14Addr(op.Src()))
+		w.in.Inject(c14Frame(op.ID, op.Idx, op.Total, int(op.Idx)*3, payload), c14SrcAddr(op.S))
 	case c14Bad:
-		w.in.Inject(c14BadFrames[op.Bad], c14Addr(op.Src()))
+		w.in.Inject(c14BadFrames[op.Bad], c14SrcAddr(op.S))
 	case c14Short:
 		p := []byte{0x41, 0x42, 0x43}
 		expect = append(expect, c14Got{op.Src(), p})
-		w.in.Inject(p, c14Addr(op.Src()))
+		w.in.Inject(p, c14SrcAddr(op.S))
 	case c14Tick:
 		w.e.Sleep(int64(geckoReassemblyTTL / 2))
 		if w.cfg.Tick == "direct" {
